@@ -1,0 +1,136 @@
+//! Verification hooks.
+//!
+//! Only compiled with `--cfg a10_verif`. **Not part of the public API.**
+//!
+//! This allows an external verification harness to
+//!  * replace the three raw io_uring system calls with an in-process
+//!    implementation (see [`install_syscalls`]), and
+//!  * observe (and yield at) the points where A10 accesses memory shared with
+//!    the kernel or with other threads (see [`install_point`]).
+//!
+//! With nothing installed A10 behaves exactly as without the cfg.
+
+#![allow(missing_docs, clippy::missing_safety_doc, clippy::must_use_candidate)]
+
+use std::ffi::{c_int, c_uint, c_void};
+use std::ptr;
+use std::sync::Mutex;
+use std::sync::atomic::{AtomicPtr, Ordering};
+
+/// Replacement for the raw io_uring system calls.
+///
+/// Each function returns `None` if the call is not handled (e.g. the ring file
+/// descriptor is not owned by the implementor), in which case the real system
+/// call is made. Otherwise it must behave like `syscall(2)`: return `-1` and
+/// set `errno` on errors.
+pub struct SyscallTable {
+    /// `io_uring_setup(2)`, `p` points to a `struct io_uring_params`.
+    pub setup: unsafe fn(entries: c_uint, p: *mut c_void) -> Option<c_int>,
+    /// `io_uring_enter(2)`.
+    pub enter: unsafe fn(
+        fd: c_int,
+        to_submit: c_uint,
+        min_complete: c_uint,
+        flags: c_uint,
+        arg: *const c_void,
+        size: usize,
+    ) -> Option<c_int>,
+    /// `io_uring_register(2)`.
+    pub register:
+        unsafe fn(fd: c_int, opcode: c_uint, arg: *const c_void, nr_args: c_uint) -> Option<c_int>,
+}
+
+static SYSCALLS: AtomicPtr<SyscallTable> = AtomicPtr::new(ptr::null_mut());
+
+/// Install (or with `None` remove) the system call replacements.
+pub fn install_syscalls(table: Option<&'static SyscallTable>) {
+    let ptr = table.map_or(ptr::null_mut(), |t| ptr::from_ref(t).cast_mut());
+    SYSCALLS.store(ptr, Ordering::SeqCst);
+}
+
+#[inline]
+pub(crate) fn syscalls() -> Option<&'static SyscallTable> {
+    let ptr = SYSCALLS.load(Ordering::Acquire);
+    // SAFETY: only set to a `&'static SyscallTable` or null.
+    unsafe { ptr.cast_const().as_ref() }
+}
+
+/// Points at which A10 is about to access (or just accessed) state shared with
+/// the kernel or another thread.
+#[derive(Copy, Clone, Debug, Eq, PartialEq)]
+#[repr(u8)]
+pub enum Point {
+    /// About to lock a mutex that is currently held by another thread. The
+    /// callee must let another thread run.
+    LockBlocked = 0,
+    /// About to lock a mutex (that is currently not held).
+    Lock,
+    /// About to try to lock a mutex.
+    TryLock,
+    /// About to load a value shared with the kernel.
+    LoadKernelShared,
+    /// Before/after the store of the submission queue tail.
+    SqTailStoreBefore,
+    SqTailStoreAfter,
+    /// Before/after the store of the completion queue head.
+    CqHeadStoreBefore,
+    CqHeadStoreAfter,
+    /// Before the load and before/after the store of a buffer ring tail.
+    BufRingTailLoad,
+    BufRingTailStoreBefore,
+    BufRingTailStoreAfter,
+    /// Before/after changing the polling state in `Ring::poll`.
+    SetPollingBefore,
+    SetPollingAfter,
+    /// Before/after changing the polling state in `SubmissionQueue::wake`.
+    WakeBefore,
+    WakeAfter,
+}
+
+/// Function called at each [`Point`], `addr` is the address of the object
+/// involved (mutex, atomic, etc.).
+pub type PointFn = fn(point: Point, addr: usize);
+
+static POINT: AtomicPtr<()> = AtomicPtr::new(ptr::null_mut());
+
+/// Install (or with `None` remove) the function called at each [`Point`].
+pub fn install_point(f: Option<PointFn>) {
+    let ptr = f.map_or(ptr::null_mut(), |f| f as *mut ());
+    POINT.store(ptr, Ordering::SeqCst);
+}
+
+#[inline]
+fn point_fn() -> Option<PointFn> {
+    let ptr = POINT.load(Ordering::Relaxed);
+    if ptr.is_null() {
+        None
+    } else {
+        // SAFETY: only set to a `PointFn` or null.
+        Some(unsafe { std::mem::transmute::<*mut (), PointFn>(ptr) })
+    }
+}
+
+#[inline]
+pub(crate) fn point<T: ?Sized>(point: Point, obj: *const T) {
+    if let Some(f) = point_fn() {
+        f(point, obj.cast::<()>().addr());
+    }
+}
+
+/// Called before locking `mutex`. If a point function is installed this never
+/// returns while `mutex` is held by another thread, so that the following
+/// `Mutex::lock` doesn't block in the OS.
+#[inline]
+pub(crate) fn before_lock<T>(mutex: &Mutex<T>) {
+    if let Some(f) = point_fn() {
+        let addr = ptr::from_ref(mutex).addr();
+        f(Point::Lock, addr);
+        loop {
+            match mutex.try_lock() {
+                Err(std::sync::TryLockError::WouldBlock) => f(Point::LockBlocked, addr),
+                // NOTE: the guard is dropped here, `lock` will grab it again.
+                Ok(_) | Err(std::sync::TryLockError::Poisoned(_)) => return,
+            }
+        }
+    }
+}
